@@ -81,6 +81,12 @@ func (ch *c20Chain) runCase(run int, src string, kase *c20Case) map[string]inter
 	cl := NewClient(be, lc, KeyPathFn(DefaultMerkleKeyPathFn()))
 	cl.RegisterOpDecoder(c20AbsentOp, c20AbsOpDecoder)
 	ctx := context.Background()
+	hp := &a.H // a.H = 0 stands for height = nil, "the latest"
+	effH := a.H
+	if a.H == 0 {
+		hp = nil
+		effH = ch.tip
+	}
 	var got interface{}
 	var err error
 	func() {
@@ -96,7 +102,7 @@ func (ch *c20Chain) runCase(run int, src string, kase *c20Case) map[string]inter
 	}()
 	switch kase.Kind {
 	case "Block":
-		var r, e = cl.Block(ctx, &a.H)
+		var r, e = cl.Block(ctx, hp)
 		if err = e; e == nil {
 			got = ch.absBlock(r)
 		}
@@ -116,7 +122,7 @@ func (ch *c20Chain) runCase(run int, src string, kase *c20Case) map[string]inter
 			got = ch.absQuery(&r.Response)
 		}
 	case "BlockResults":
-		var r, e = cl.BlockResults(ctx, &a.H)
+		var r, e = cl.BlockResults(ctx, hp)
 		if err = e; e == nil {
 			got = ch.absResults(r)
 		}
@@ -131,12 +137,12 @@ func (ch *c20Chain) runCase(run int, src string, kase *c20Case) map[string]inter
 			got = ch.absInfo(r)
 		}
 	case "Commit":
-		var r, e = cl.Commit(ctx, &a.H)
+		var r, e = cl.Commit(ctx, hp)
 		if err = e; e == nil {
 			got = ch.absCommitRes(r)
 		}
 	case "Validators":
-		var r, e = cl.Validators(ctx, &a.H, c20Ptr(a.Page), c20Ptr(a.Per))
+		var r, e = cl.Validators(ctx, hp, c20Ptr(a.Page), c20Ptr(a.Per))
 		if err = e; e == nil {
 			got = ch.absValsRes(r)
 		}
@@ -147,12 +153,12 @@ func (ch *c20Chain) runCase(run int, src string, kase *c20Case) map[string]inter
 	if provider {
 		if sentLB == nil { // the primary was not asked (height already trusted): nothing was sent
 			ev["asked"] = false
-			sentLB = ch.absLB(ch.lightBlock(a.H))
+			sentLB = ch.absLB(ch.lightBlock(effH))
 		} else {
 			ev["asked"] = true
 		}
 		ev["sent"] = sentLB
-		ev["changed"] = !c20SameJSON(sentLB, ch.absLB(ch.lightBlock(a.H)))
+		ev["changed"] = !c20SameJSON(sentLB, ch.absLB(ch.lightBlock(effH)))
 	} else {
 		ev["asked"] = be.calls > 0
 		ev["sent"] = be.sent
@@ -372,6 +378,9 @@ func (ch *c20Chain) honestRoot(kind string, a c20Arg) (c20Rec, bool) {
 			return ch.infoN(r), true
 		}
 	case "Commit", "Validators":
+		if a.H == 0 {
+			a.H = ch.tip
+		}
 		if a.H >= 1 && a.H <= ch.tip {
 			return ch.lbN(c20LBFrom(ch.lightBlock(a.H))), true
 		}
@@ -390,8 +399,14 @@ func (ch *c20Chain) randArgs(rng *rand.Rand, kind string) (c20Arg, bool) {
 		if kind == "Validators" && rng.Intn(2) == 0 {
 			a.Page, a.Per = 1, 2
 		}
+		if (kind == "Block" || kind == "Commit" || kind == "Validators") && rng.Intn(4) == 0 {
+			a.H, a.PP = 0, "" // height = nil
+		}
 	case "BlockResults":
 		a.H = 1 + rng.Int63n(ch.tip-1)
+		if rng.Intn(5) == 0 {
+			a.H = 0
+		}
 	case "Tx":
 		var hs []int64
 		for h := int64(1); h <= ch.tip; h++ {
